@@ -38,10 +38,13 @@ Section Sink.
 
   Definition nlen (p : list A) : N := N.of_nat (length p).
 
+  (* linear-time reversal (= rev, Proofs.frev_rev) *)
+  Definition frev (l : list A) : list A := rev_append l [].
+
   (* accepted bytes are kept reversed; s_pos caches their number *)
   Record sink := mkSink { s_rev : list A; s_pos : N; s_flt : fault; s_fired : bool }.
 
-  Definition sink_bytes (s : sink) : list A := rev (s_rev s).
+  Definition sink_bytes (s : sink) : list A := frev (s_rev s).
 
   Definition sink_accept (s : sink) (p : list A) (fired : bool) : sink :=
     mkSink (rev_append p (s_rev s)) (s_pos s + nlen p) (s_flt s) fired.
@@ -75,13 +78,13 @@ Section Sink.
     if is_err (b_err b) then (s, b, b_err b)
     else if b_n b =? 0 then (s, b, ENone)
     else
-      let data := rev (b_rev b) in
+      let data := frev (b_rev b) in
       let '(s', n, e) := sink_write s data in
       (* if n < b.n && err == nil { err = io.ErrShortWrite } *)
       let e' := if negb (is_err e) && (n <? b_n b) then EShort else e in
       if is_err e' then
         (* copy(b.buf[0:b.n-n], b.buf[n:b.n]); b.n -= n; b.err = err *)
-        (s', mkBuf (b_size b) (rev (skipn (N.to_nat n) data)) (b_n b - n) e', e')
+        (s', mkBuf (b_size b) (frev (skipn (N.to_nat n) data)) (b_n b - n) e', e')
       else (s', mkBuf (b_size b) [] 0 ENone, ENone).
 
   (* the loop of Write (direct = true) and of WriteString when the underlying
@@ -140,7 +143,7 @@ Section Sink.
   Record st := mkSt { snk : sink; bw : option bufw }.
 
   Definition content (t : st) : list A :=
-    sink_bytes (snk t) ++ match bw t with None => [] | Some b => rev (b_rev b) end.
+    sink_bytes (snk t) ++ match bw t with None => [] | Some b => frev (b_rev b) end.
 
   (* w.writer.Write(b) *)
   Definition lower_write (t : st) (p : list A) : st * N * err :=
